@@ -26,9 +26,8 @@ def gen_cases(tier, seed):
     progs['req_ok'] = ({'steps': [S(['cont', [], {}], yields=1, fx=[(0, ['out', 'req', 5])]), S(['stop', 4, True], sync=True)]}, True)
     progs['req_bad_type'] = ({'steps': [S(['wait', 'w', None], yields=1, fx=[(1, ['out', 'req', 'notint'])]), S(['value', 9], yields=1)]}, True)
     rng = plans.rng_for(seed, 'c02')
-    if tier == 'thorough':
-        for n in range(40):
-            progs['rnd%d' % n] = (programs.random_program(rng, 5), False)
+    for n in range(40 if tier == 'thorough' else 8):
+        progs['rnd%d' % n] = (programs.random_program(rng, 5), False)
     for name, (prog, req) in sorted(progs.items()):
         n = plans.slots_of(prog)
         plist = [[]]
